@@ -107,8 +107,18 @@ def init : State :=
   { slots := List.replicate (demuxClasses * demuxSubclasses) (Slot.zero demuxBufExtent)
     curr := none, curCls := 0, curSub := 0 }
 
-/-- subclass -> second index: `i = xds_subclass; if (i >= 0x40) i += 0x10 - 0x40;` -/
-def remap (c2 : Nat) : Nat := if c2 ≥ demuxRemapFrom then c2 + demuxRemapTo - demuxRemapFrom else c2
+/-- subclass -> second index.  Two source shapes (constants read by translate/gen_xds.py):
+    `i = xds_subclass; if (i >= 0x40) i += 0x10 - 0x40;` (F33: `demuxLowLimit = demuxRemapFrom`, the
+    second branch below is dead, subclasses 0x1n and 0x4n land on the same index) and
+    `if (i >= 0x40) i += VBI_XDS_MAX_SUBCLASSES - 0x40; else if (i >= VBI_XDS_MAX_SUBCLASSES)
+    i = N_ELEMENTS (xd->subpacket[0]);` (repaired: 0x4n behind 0x00..0x17, 0x18..0x3F refused). -/
+def remapWith (from_ to_ low n : Nat) (c2 : Nat) : Nat :=
+  if c2 ≥ from_ then c2 + to_ - from_
+  else if c2 ≥ low then n
+  else c2
+
+/-- the mapping of the tree under test -/
+def remap (c2 : Nat) : Nat := remapWith demuxRemapFrom demuxRemapTo demuxLowLimit demuxSubclasses c2
 
 /-- label `discard:` -/
 def discard (s : State) (sp : Option Nat) : State :=
